@@ -92,6 +92,7 @@ let sstmt_of = function
     SMod (d, natof x, lop_of m)
   | L [A "swap"; x; p; y; q] -> SSwap (natof x, path_of p, natof y, path_of q)
   | L [A "opmod"; x; p; f; A wrap; y; m] -> SOpMod (natof x, path_of p, bop_of f, (wrap = "1"), natof y, lop_of m)
+  | L [A "opdef"; x; p; d; f; e] -> SOpDef (natof x, path_of p, val_of d, bop_of f, expr_of e)
   | _ -> bad "sstmt"
 
 let stmt_of = function
